@@ -752,7 +752,8 @@ pub fn gen_rr_text(rng: &mut Rng) -> String {
                 "{} {} ( {} {} {} {} {} )",
                 host(rng),
                 host(rng),
-                rng.next_u64() as u32,
+                // serial: 0 and other special values as well as arbitrary ones
+                gen_ttl(rng),
                 rng.below(100000),
                 rng.below(100000),
                 rng.below(1000000),
